@@ -167,9 +167,10 @@ impl Prop for Order {
             cx.label("both_bc");
         }
         let want = ia.cmp(&ib);
+        let route = ((c.a.ns ^ c.b.ns ^ c.a.day) % 16) as u8;
         let r = catch(|| {
-            let a = mk_dt_off(ia, c.oa);
-            let b = mk_dt_off(ib, c.ob);
+            let a = if route < 8 { mk_dt_route(ia, route).set_offset(Offset::Fixed(c.oa)) } else { mk_dt_off(ia, c.oa) };
+            let b = if route < 8 { mk_dt_route(ib, route / 2).set_offset(Offset::Fixed(c.ob)) } else { mk_dt_off(ib, c.ob) };
             let since = [
                 sgn(a.years_since(&b)),
                 sgn(a.months_since(&b)),
